@@ -596,6 +596,8 @@ pub struct DevCtx<'a> {
     pub violations: &'a mut Vec<Violation>,
     pub stats: &'a mut Stats,
     pub tick: u64,
+    /// hostile device: its own accesses to buffers the driver already took back are not judged
+    pub quiet_mem_faults: bool,
 }
 
 impl DevCtx<'_> {
@@ -609,8 +611,10 @@ impl DevCtx<'_> {
             let start = v.len();
             v.resize(start + e.len as usize, 0);
             if let Err(f) = self.hal.dev_read(e.addr, &mut v[start..]) {
-                let m = format!("{} (addr {:#x} len {})", f.why, f.paddr, f.len);
-                self.violation("device-mem-fault", "read_in", m);
+                if !self.quiet_mem_faults {
+                    let m = format!("{} (addr {:#x} len {})", f.why, f.paddr, f.len);
+                    self.violation("device-mem-fault", "read_in", m);
+                }
             }
         }
         v
@@ -634,8 +638,10 @@ impl DevCtx<'_> {
             }
             let n = rest.len().min(elen - skip);
             if let Err(f) = self.hal.dev_write(e.addr + skip as u64, &rest[..n]) {
-                let m = format!("{} (addr {:#x} len {})", f.why, f.paddr, f.len);
-                self.violation("device-mem-fault", "write_out", m);
+                if !self.quiet_mem_faults {
+                    let m = format!("{} (addr {:#x} len {})", f.why, f.paddr, f.len);
+                    self.violation("device-mem-fault", "write_out", m);
+                }
             }
             skip = 0;
             rest = &rest[n..];
@@ -662,6 +668,11 @@ pub trait Personality: std::any::Any {
     /// length to report.
     fn complete(&mut self, q: u16, chain: &Chain, ctx: &mut DevCtx) -> u32;
     fn on_reset(&mut self) {}
+    /// The driver busy-waits and the device has nothing to do: a personality that rations its
+    /// completions may decide to act after all (returns true if it now has something to do).
+    fn on_idle_spin(&mut self) -> bool {
+        false
+    }
     /// A new chain became visible to the device on queue `q` (called by the observer).
     fn on_published(&mut self, _q: u16, _chain: &Chain, _ctx: &mut DevCtx) {}
     /// The driver wrote `len` bytes at `off` of the configuration space.
@@ -1057,7 +1068,14 @@ impl World {
         match kind {
             PointKind::Spin => {
                 self.stats.spins += 1;
-                let can = self.device_can_progress();
+                let mut can = self.device_can_progress();
+                if !can {
+                    if let Some(d) = self.dev.as_mut() {
+                        if d.on_idle_spin() {
+                            can = self.device_can_progress();
+                        }
+                    }
+                }
                 if !can {
                     self.spin_supervise(false);
                     return;
@@ -1103,6 +1121,12 @@ impl World {
         if !self.violations.is_empty() {
             // Continuing could spin forever; leave the driver.
             std::panic::panic_any(AbortRun("violation recorded; leaving busy-wait"));
+        }
+        if self.idle_spins > self.cfg.spin_idle_limit && self.cfg.hostile {
+            // A device that never (correctly) answers makes any blocking call wait forever; that
+            // is inherent in a blocking interface and not judged. Leave the driver.
+            *self.stats.probes.entry("blocking_call_abandoned_under_hostile_device").or_insert(0) += 1;
+            std::panic::panic_any(AbortRun("hostile device: blocking call abandoned"));
         }
         if self.idle_spins > self.cfg.spin_idle_limit {
             let state: Vec<String> = (0..self.dq.len())
